@@ -377,3 +377,14 @@ def virtual_calls(ctx, b, F, inline_rx, depth=2):
 
     walk(b, F, lambda x: x, None, (), depth)
     return out
+
+
+def success_sites(body):
+    """places where a Result-returning function can produce a non-error value: explicit Ok(..) constructions of the return place
+    and calls whose result becomes the return value (`x.map_err(..)` as tail expression); error propagation (`?`, from_residual)
+    and explicit Err(..) are left out.  Returns [(bb, statement index or None)]."""
+    out = [(bb, si) for bb, si, pl in result_ctor_sites(body, 'Ok')]
+    for d in body.defs().get(0, []):
+        if d[0] == 'call' and not d[2].callee.endswith('FromResidual::from_residual'):
+            out.append((d[1], None))
+    return out
